@@ -1942,13 +1942,15 @@ def dask_groupby_agg(
                 dsk |= subset.layer  # type: ignore[operator]
                 # now that we have reindexed, we can set reindex=True explicitlly
                 new_reindex = ReindexStrategy(blockwise=do_simple_combine, array_type=reindex.array_type)
+                # only _simple_combine accepts (and needs) the reindex strategy
+                combine_kwargs = dict(reindex=new_reindex) if do_simple_combine else {}
                 _tree_reduce(
                     subset,
                     out_dsk=dsk,
                     name=out_name,
                     block_index=icohort,
                     axis=axis,
-                    combine=partial(combine, agg=agg, reindex=new_reindex, keepdims=True),
+                    combine=partial(combine, agg=agg, keepdims=True, **combine_kwargs),
                     aggregate=partial(
                         aggregate, expected_groups=cohort_index, reindex=new_reindex, keepdims=True
                     ),
